@@ -490,14 +490,24 @@ class World12:
                 self.probe("union_ill_conditioned_probe_skipped")
                 continue
             off, goff, fsum = n_root_x, n_root_g, 0.0
+            failed = False
             for r_s in alone:
                 xs = np.asarray(xi[off:off + r_s["nx"]], dtype=float)
-                f, g, _, _ = r_s["_F"](xs, r_s["p"])
+                try:
+                    f, g, _, _ = r_s["_F"](xs, r_s["p"])
+                    failed = failed or not np.isfinite(float(f))
+                except RuntimeError:
+                    failed = True
+                if failed:
+                    break  # a built-in integrator gave up at this point (it keeps memory between calls): not judged
                 if not S._close(np.array(g).flatten(), rec["g"][i][goff:goff + r_s["ng"]], rtol=1e-8, atol=1e-10):
                     raise Violation("union:g", "constraint rows of a stage inside the multi-stage NLP differ from the same stage transcribed alone (probe %d)" % i)
                 fsum += float(f)
                 off += r_s["nx"]
                 goff += r_s["ng"]
+            if failed:
+                self.probe("union_probe_skipped_stage_alone_not_evaluable")
+                continue
             if not a.spec.obj and not S._close([rec["f"][i]], [fsum], rtol=1e-8, atol=1e-10):
                 raise Violation("union:f", "total objective %r is not the sum of the stage objectives %r (probe %d)" % (rec["f"][i], fsum, i))
         off = n_root_x
